@@ -570,6 +570,7 @@ package gorm
 //@   assumes handle-well-formed: db.clone > 0 || (db.Statement != nil && db.Statement.DB == db)
 //@   may-panic fc
 //@   loop 1 invariant batch-size-in-range: 1 <= batchSize && batchSize <= old(batchSize)
+//@   loop 1 invariant handle-is-reusable: tx.clone > 0
 //@   loop 1 invariant only-full-batches-so-far: totalSize > 0 ==> (rowsAffected == batch * batchSize || rowsAffected + batchSize == totalSize)
 //@ site batch-query-size
 //@   match call gorm.(*DB).Limit
